@@ -582,6 +582,24 @@ Qed.
 
 End UnitsTheorems.
 
+(** a value list [.unit:(t1 OR t2)] judges every measurement on its own: the
+    union of what its members keep (no state between measurements of a line) *)
+Lemma unit_match_or (m1 m2 : bytes -> bool) v :
+  unit_match (fun u => m1 u || m2 u) v = unit_match m1 v || unit_match m2 v.
+Proof.
+  unfold unit_match.
+  destruct (m1 (v_unit v)), (m2 (v_unit v)), (negb (beq (v_ounit v) [])), (m1 (v_ounit v)), (m2 (v_ounit v)); reflexivity.
+Qed.
+
+Lemma unit_filter_apply_pointwise (m : bytes -> bool) vals :
+  fst (unit_filter_apply m vals) = filter (unit_match m) vals /\
+  snd (unit_filter_apply m vals) = existsb (unit_match m) vals.
+Proof.
+  unfold unit_filter_apply. cbn [fst snd]. split; [reflexivity|].
+  induction vals as [|v vals IH]; [reflexivity|].
+  cbn [filter existsb]. destruct (unit_match m v); [reflexivity|]. exact IH.
+Qed.
+
 (** the decision the reader made before commit e1a075c split one metric over two units *)
 Theorem read_value_old_refuted :
   exists v u, v_unit (read_value_old go_is_space v u) <> fst (tidy_unit go_is_space u).
